@@ -12,16 +12,20 @@ static long g_allocs = 0, g_fail_alloc = -1, g_copies = 0, g_fail_copy = -1;
 struct InjectedFault {};
 template <class T> struct FA {
     using value_type = T; FA() = default; template <class U> FA(const FA<U>&) {}
-    T* allocate(size_t n) { if (__atomic_add_fetch(&g_allocs, 1, __ATOMIC_SEQ_CST) == g_fail_alloc) throw std::bad_alloc(); return (T*)calloc(n, sizeof(T)); }
+    T* allocate(size_t n) { if (__atomic_add_fetch(&g_allocs, 1, __ATOMIC_SEQ_CST) == g_fail_alloc) throw std::bad_alloc(); T* p = (T*)malloc(n * sizeof(T)); if (p) memset((void*)p, 0xCD, n * sizeof(T)); return p; }   // fresh memory is poisoned: a slot that was neither constructed nor zero-filled is recognisable
     void deallocate(T* p, size_t) { free(p); }
     template <class U> bool operator==(const FA<U>&) const { return true; }
     template <class U> bool operator!=(const FA<U>&) const { return false; }
 };
-struct E {
-    int v;
-    E(int x = 0) : v(x) {}
-    E(const E& o) : v(o.v) { if (__atomic_add_fetch(&g_copies, 1, __ATOMIC_SEQ_CST) == g_fail_copy) throw InjectedFault(); }
-    E& operator=(const E& o) { v = o.v; return *this; }
+static long g_garbage_dtor = 0;
+struct E {      // every slot is classifiable: 1 = constructed (chk matches), 2 = zero-filled by the vector after a failure, 3 = garbage (never constructed, never zero-filled)
+    int v; unsigned chk;
+    static const unsigned M = 0x5A5A5A5Au;
+    E(int x = 0) : v(x), chk((unsigned)x ^ M) {}
+    E(const E& o) : v(o.v), chk(o.chk) { if (__atomic_add_fetch(&g_copies, 1, __ATOMIC_SEQ_CST) == g_fail_copy) throw InjectedFault(); }
+    E& operator=(const E& o) { v = o.v; chk = o.chk; return *this; }
+    int cls() const { return chk == ((unsigned)v ^ M) ? 1 : (v == 0 && chk == 0) ? 2 : 3; }
+    ~E() { if (cls() == 3) __atomic_add_fetch(&g_garbage_dtor, 1, __ATOMIC_SEQ_CST); }
 };
 typedef tbb::concurrent_vector<E, FA<E>> V;
 static vh::TraceOut TR;
@@ -80,9 +84,10 @@ int main(int argc, char** argv) {
                     g_fail_alloc = -1; g_fail_copy = -1;
                     // the property only promises: later ACCESSES work or throw, and the vector is destructible (a later growth may hang by design)
                     size_t sz = v.size();
-                    for (size_t i = 0; i < sz; i++) { int ok = 1; try { volatile int x = v.at(i).v; (void)x; } catch (...) { ok = 0; } TR.emit("{\"e\":\"Access\",\"i\":%zu,\"r\":%d}", i, ok); }
+                    for (size_t i = 0; i < sz; i++) { int ok = 1, c = 0; try { c = v.at(i).cls(); } catch (...) { ok = 0; } TR.emit("{\"e\":\"Access\",\"i\":%zu,\"r\":%d,\"c\":%d}", i, ok, c); }
+                    g_garbage_dtor = 0;
                 }
-                TR.emit("{\"e\":\"Destroyed\"}"); TR.close(); _exit(0);
+                TR.emit("{\"e\":\"Destroyed\",\"garbage\":%ld}", g_garbage_dtor); TR.close(); _exit(0);
             }
             int status = 0; waitpid(pid, &status, 0);
             std::ifstream in(tmp); std::string line;
